@@ -323,9 +323,49 @@ def run(eng, p):
     return ("ok", tuple(fbas), world["openings"])
 
 
+def run_multi(eng, p):
+    """one basin definition with TWO candidate locations: the basin resolves
+    to the first location that holds an available, matching, permitted file
+    (a non-matching file at the first location must not hide the second)"""
+    world = {"files": {}, "openings": 0, "stack": [], "isolation": []}
+    UDS = build(world)
+    rid1 = pick(eng, "rid1", ID_OPTS)
+    avail = [True, bool(eng.bool("avail1")), bool(eng.bool("avail2"))]
+    rids = [REF_ID, rid1, REF_ID]
+    mp = "same" if p["mapping"] == "same" else "basinmap0"
+    bas = [{"name": "b", "key": "key012", "mapping": mp, "type": "file",
+            "format": "hdf5", "paths": ["f1", "f2"]}]
+    for k in range(3):
+        world["files"]["f%d" % k] = dict(
+            fmt="hdf5", rid=rids[k], basins=bas if k == 0 else [],
+            avail=avail[k], k=k,
+            feats=["deform", UNIQUE[k]] if k else ["deform"])
+    with quiet():
+        ds = UDS("f0")
+        fbas = list(ds.features_basin)
+    eng.reach()
+    F = world["files"]
+    first = None
+    for k in (1, 2):
+        if hop_ok(F["f0"], F["f%d" % k], p["mapping"]):
+            first = k
+            break
+    for k in (1, 2):
+        exp = (k == first)
+        eng.prove(z3.BoolVal((UNIQUE[k] in fbas) == exp),
+                  "multi-location basin resolves to the first matching "
+                  "location", info={"rid of first location": rids[1],
+                                    "available": avail[1:],
+                                    "offered": fbas, "expected file": first})
+    return "ok"
+
+
 def run_case(name, params):
     eng = Engine(timeout_ms=10000, max_paths=400000)
-    eng.explore(lambda e: run(e, params))
+    if params.get("multi"):
+        eng.explore(lambda e: run_multi(e, params))
+    else:
+        eng.explore(lambda e: run(e, params))
     return eng.stats()
 
 
@@ -350,6 +390,10 @@ def cases(tier, seed):
                         rid0, rids, mapping, fmt0), dict(
                         nfiles=nf, edges=edges, rid0=rid0, rids=rids,
                         mapping=mapping, fmt0=fmt0)))
+    for mapping in ("same", "mapped"):
+        out.append(("multi-location basin %s" % mapping,
+                    dict(multi=True, mapping=mapping, nfiles=3, edges=[],
+                         rid0=REF_ID, rids=[], fmt0="hdf5")))
     for fmt0 in ("hdf5", "http"):
         for mapping in ("same", "mapped"):
             out.append(("mislabelled basin type rid0=%s %s root=%s" % (
@@ -385,6 +429,8 @@ def replay(case, params, v):
     what = str(v.get("what", ""))
     if p.get("mislabel"):
         return _replay_mislabel(p)
+    if p.get("multi"):
+        return _replay_multi(p, vals)
     if "isolation" in what or p["fmt0"] != "hdf5" or \
             any(f != "hdf5" for f in fmts):
         # needs a non-local dataset format: replay on the stub universe
@@ -469,6 +515,75 @@ def replay(case, params, v):
                 "detail": "scenario passes with real files: ids=%r adj=%r" %
                           (rids, [e for e in edges if adj[e]])}
     return {"reproduced": True, "key": classify(fails[0], rids, p),
+            "detail": fails[0]}
+
+
+def _replay_multi(p, vals):
+    import os
+    import tempfile
+    import dclab
+    import dclab.rtdc_dataset.writer as W
+    rid1 = ID_OPTS[-1]
+    for i, o in enumerate(ID_OPTS[:-1]):
+        if vals.get("rid1_is_%d" % i, False):
+            rid1 = o
+            break
+    avail = [True, bool(vals.get("avail1", False)),
+             bool(vals.get("avail2", False))]
+    rids = [REF_ID, rid1, REF_ID]
+    old_version = W.version
+    W.version = "0.62.7"
+    fails = []
+    try:
+        with tempfile.TemporaryDirectory(prefix="verif_c14_") as td, quiet():
+            paths = [os.path.join(td, "f%d.rtdc" % k) for k in range(3)]
+            for k in (1, 2, 0):
+                if not avail[k]:
+                    continue
+                with W.RTDCWriter(paths[k], mode="reset") as hw:
+                    hw.store_feature("deform", np.linspace(.01, .02, 3))
+                    if k:
+                        hw.store_feature(UNIQUE[k], np.arange(3) + 100. * k)
+                    meta = {"setup": {"channel width": 20.0,
+                                      "chip region": "channel",
+                                      "flow rate": 0.04, "medium": "other"},
+                            "imaging": {"pixel size": 0.34}}
+                    if rids[k] is not None:
+                        meta["experiment"] = {"run identifier": rids[k]}
+                    hw.store_metadata(meta)
+                    if k == 0:
+                        kw = {}
+                        if p["mapping"] != "same":
+                            kw = dict(basin_map=np.array([0, 2, 1]))
+                        hw.store_basin("b", "file", "hdf5",
+                                       [paths[1], paths[2]], verify=False,
+                                       **kw)
+            with dclab.new_dataset(paths[0]) as ds:
+                fbas = list(ds.features_basin)
+            F = {k: dict(fmt="hdf5", rid=rids[k], avail=avail[k])
+                 for k in range(3)}
+            first = None
+            for k in (1, 2):
+                if hop_ok(F[0], F[k], p["mapping"]):
+                    first = k
+                    break
+            for k in (1, 2):
+                if (UNIQUE[k] in fbas) != (k == first):
+                    fails.append(
+                        "basin with locations [f1 (run identifier %r, %s), "
+                        "f2 (matching, %s)]: features offered %r, expected "
+                        "those of %s" % (
+                            rids[1], "present" if avail[1] else "absent",
+                            "present" if avail[2] else "absent", fbas,
+                            "f%d" % first if first else "no file"))
+                    break
+    finally:
+        W.version = old_version
+    if not fails:
+        return {"reproduced": False, "key": "not-reproduced",
+                "detail": "resolved to the first matching location"}
+    return {"reproduced": True,
+            "key": "basins_retrieve|multi-location|wrong-resolution",
             "detail": fails[0]}
 
 
